@@ -1,6 +1,9 @@
 #!/bin/bash
-# usage: show.sh <file.v> <line>  -- prints the goals after the given line
-cd /verif/coq
-head -n $2 $1 > /tmp/_show.v
-echo "Show. " >> /tmp/_show.v
-coqc -Q Model Model -Q Proofs Proofs /tmp/_show.v 2>&1 | head -${3:-80}
+# usage: show.sh <file.v> <line> [maxlines] -- prints the goals after the given line
+W="$(cd "$(dirname "$0")" && pwd)"
+cd "$W"
+T=$(mktemp -d)
+head -n $2 $1 > $T/show_tmp.v
+echo "Show. " >> $T/show_tmp.v
+timeout 600 coqc -Q Model Model -Q Proofs Proofs $T/show_tmp.v 2>&1 | head -${3:-80}
+rm -rf $T
